@@ -84,10 +84,14 @@ Proof. intros s caps c H G. rewrite G. exact (proj1 (ops_grouped s caps c H)). Q
 Print Assumptions ops_per_modifier_partial.
 
 Example grouped_stack_satisfiable :
-  let s := [MDagger; MPower 7; MPower 8; MControl (CArr 1 3); MControl (CQs [2; 3])] in
-  map kind_of s = grouped_kinds gen_emit_order s /\
+  let s := flat_map (fun k => match k with
+                              | KDagger => [MDagger]
+                              | KPower => [MPower 7; MPower 8]
+                              | KControl => [MControl (CArr 1 3); MControl (CQs [2; 3])]
+                              end) gen_emit_order in
+  length s = 5%nat /\ map kind_of s = grouped_kinds gen_emit_order s /\
   option_map (fun c => map op_kind (c_ops c)) (compile s [mkCap 10 0 false; mkCap 11 1 true]) = Some (map kind_of s).
-Proof. vm_compute. split; reflexivity. Qed.
+Proof. vm_compute. repeat split; reflexivity. Qed.
 
 (* ... and is refuted in general: one op per modifier, in source order *)
 Theorem ops_per_modifier_refuted :
@@ -99,10 +103,16 @@ Theorem ops_per_modifier_refuted :
 Proof.
   split; [|split].
   - exists [MDagger; MDagger], [mkCap 10 0 false]. eexists. split; [vm_compute; reflexivity|]. vm_compute. discriminate.
-  - exists [MControl (CQs [1]); MDagger], [mkCap 10 0 false]. eexists. split; [vm_compute; reflexivity|].
-    split; [reflexivity|]. vm_compute. discriminate.
-  - exists [MDagger; MControl (CQs [1])], [mkCap 10 0 false]. eexists. split; [vm_compute; reflexivity|].
-    split; [reflexivity|]. vm_compute. discriminate.
+  - first
+      [ solve [ exists [MControl (CQs [1]); MDagger], [mkCap 10 0 false]; eexists; split; [vm_compute; reflexivity|];
+                split; [reflexivity|]; vm_compute; discriminate ]
+      | solve [ exists [MDagger; MControl (CQs [1])], [mkCap 10 0 false]; eexists; split; [vm_compute; reflexivity|];
+                split; [reflexivity|]; vm_compute; discriminate ] ].
+  - first
+      [ solve [ exists [MDagger; MControl (CQs [1])], [mkCap 10 0 false]; eexists; split; [vm_compute; reflexivity|];
+                split; [reflexivity|]; vm_compute; discriminate ]
+      | solve [ exists [MControl (CQs [1]); MDagger], [mkCap 10 0 false]; eexists; split; [vm_compute; reflexivity|];
+                split; [reflexivity|]; vm_compute; discriminate ] ].
 Qed.
 Print Assumptions ops_per_modifier_refuted.
 
